@@ -120,7 +120,7 @@ namespace rkcommon {
     template <typename T>
     inline T divRoundUp(T a, T b)
     {
-      return (a + b - 1) / b;
+      return (a + (b - 1)) / b;
     }
 
 #define APPROXIMATE_SRGB
